@@ -161,3 +161,11 @@ prop("C17",
      rule="requests from a fixed catalogue per outcome class on the kitchen schema; Non-trivial = (>= 2 extensions and >= 1 panic) or a non-error panic value; distinct by case hash.",
      assumptions=["extension names are unique (the interface asks for that); hooks never return a nil finish function"],
      runs=[dict(test="^TestC17$", quick=dict(checks=6000), thorough=dict(checks=60000, shards=16, timeout=3000))])
+
+prop("C10",
+     level_text="generated-input search (rapid): schema model (wrappers to depth 4, defaults of every input kind incl. enums with non-name internals, lists, nested input objects, custom scalars; descriptions; deprecations; custom directives; thunked interfaces / members; unreferenced implementers) built directly or by NewSchema + AppendType in a drawn order; the full introspection result is decoded and compared with the generating model, every defaultValue is parsed by the reference parser and coerced by the reference coercion and must give back the configured default; __type(name:) per type with includeDeprecated off",
+     note="configured defaults are generated in coerced form (input-object defaults carry their fields' own defaults, no null inside lists: this edition has no null literal); __typename = runtime type is covered by C01/C04",
+     technique="property-based testing (rapid): model round trip through introspection + parse/coerce round trip of defaults",
+     rule="Non-trivial = a default of list / input-object / enum kind, an interface with >= 2 implementers, or a schema extended by AppendType; distinct by case hash.",
+     assumptions=["the set of types a schema must list = model types + built-in scalars it mentions + String, Boolean + the eight introspection types"],
+     runs=[dict(test="^TestC10$", quick=dict(checks=2000), thorough=dict(checks=20000, shards=16, timeout=3000))])
